@@ -112,10 +112,20 @@ pub fn dispatch(v: &Value) -> Value {
                 Err(e) => json!({"err": e}),
             }
         }
+        "alphabet" => {
+            // Rasn::format_alphabet_annotations (hook) on serial constraints of a string type
+            use rasn_compiler::prelude::ir::*;
+            let cs: Vec<Constraint> = v["constraints"].as_array().map(|a| a.iter().map(crate::ir::constraint).collect()).unwrap_or_default();
+            let st = crate::ir::string_type(v.get("cs")).unwrap();
+            match hk::format_alphabet_annotations(st, &cs) {
+                Ok(t) => json!({"ok": crate::proj::norm(&t)}),
+                Err(e) => json!({"err": e.chars().take(200).collect::<String>()}),
+            }
+        }
         "charset" => {
             let st = crate::ir::string_type(v.get("cs")).unwrap();
             let cs: Vec<u32> = hk::character_set(st).into_iter().map(|c| c as u32).collect();
-            json!({"len": cs.len(), "head": cs.iter().take(200).collect::<Vec<_>>(), "last": cs.last()})
+            json!({"len": cs.len(), "all": cs})
         }
         _ => json!({"harness_error": format!("unknown op {op}")}),
     }
